@@ -977,6 +977,45 @@ def expect_error(env, B, fn, what, allowed=(Exception,), constructing=False, may
     neighbours_intact(env, B, f"after {what}")
 
 
+def negative_index_ok(env, B, node, key, nkey, lt, what):
+    """two admissible outcomes for an index in -len..-1: an error with nothing changed, or the element counted from
+    the end -- never another address"""
+    m = env.mark()
+    try:
+        got = node[key]
+        raised = False
+    except BaseException as ex:
+        if not isinstance(ex, Exception):
+            raise
+        raised = True
+    if raised:
+        env.no_stores_since(m, f"C11 reading {what}: refused, nothing written")
+    else:
+        want = node[nkey]
+        same = V.same(V.readback(lt, got), V.readback(lt, want)) if lt[0] in ("scalar", "string") else (getattr(got, "_offset", None) is not None and _truthy(env.eq(got._offset, want._offset)) if not is_symbolic(env.eq(got._offset, want._offset)) else True)
+        env.check(same, f"C11 reading {what}: an accepted negative index denotes the element counted from the end")
+        if lt[0] not in ("scalar", "string") and is_symbolic(env.eq(got._offset, want._offset)):
+            env.check(env.eq(got._offset, want._offset), f"C11 reading {what}: an accepted negative index denotes the element counted from the end")
+    if lt[0] == "scalar":
+        old = node[nkey]
+        nv = other_scalar(lt, old.item() if hasattr(old, "item") else old, 1)
+        m = env.mark()
+        try:
+            node[key] = nv
+            raised = False
+        except BaseException as ex:
+            if not isinstance(ex, Exception):
+                raise
+            raised = True
+        if raised:
+            env.no_stores_since(m, f"C11 writing {what}: refused, nothing written")
+        else:
+            env.check(V.same(V.readback(lt, node[nkey]), V.expected(lt, nv)), f"C11 writing {what}: an accepted negative index writes the element counted from the end")
+            node[nkey] = old  # put the value back: the rest of the object is compared below
+    read_ok(env, B.t, B.obj, B.cur_exp, f"C11 {what}: every other element keeps its value")
+    neighbours_intact(env, B, f"after {what}")
+
+
 def sc_c11(env, t, v, cfg):
     B = construct(env, t, v, cfg)
     B.cur_exp = B.exp
@@ -998,8 +1037,16 @@ def sc_c11(env, t, v, cfg):
                     key = idx if len(idx) > 1 else idx[0]
                     if any(s == 0 for k, s in enumerate(shape) if k != ax):
                         continue
-                    expect_error(env, B, lambda: node[key], f"reading index {idx} outside shape {shape} at {path}")
                     lt = ct[1]
+                    if -d <= bad < 0:
+                        # a negative index within -len..-1: a library may refuse it (the pinned one does) or count from
+                        # the end like Python sequences; what it must not do is address anything else
+                        nidx = tuple(bad + d if k == ax else 0 for k in range(len(shape)))
+                        nkey = nidx if len(nidx) > 1 else nidx[0]
+                        negative_index_ok(env, B, node, key, nkey, lt, f"index {idx} (shape {shape}) at {path}")
+                        n += 1
+                        continue
+                    expect_error(env, B, lambda: node[key], f"reading index {idx} outside shape {shape} at {path}")
                     if lt[0] == "scalar":
                         expect_error(env, B, lambda: node.__setitem__(key, 1), f"writing index {idx} outside shape {shape} at {path}")
                     n += 1
